@@ -773,14 +773,15 @@ def run(ctx):
                                   dict(script=small, mode="file" if mode == "F" else "pipe (opensmt -p)", rc=r2[0], stdout=r2[1][:300], stderr=r2[2][:600],
                                        original=text if len(text) < 3000 else text[:3000]))
             # 1b. the generator injected sort errors: silence is a violation
-            if isinstance(expect, tuple) and expect[0] == "battery" and rc in (0, 1):
+            if isinstance(expect, tuple) and expect[0] == "battery" and rc != "timeout":
                 _, lg_, cases_, decls_ = expect
                 segs = re.split(r"(?m)^@(\d+|end)\n", out)
                 # segs = [before, id0, text0, id1, text1, ...]; text_k = output between marker k and the next one
                 got = {segs[i]: segs[i + 1] for i in range(1, len(segs) - 1, 2)}
                 for i_, (sym, desc, acmd) in enumerate(cases_):
                     seg = got.get(str(i_))
-                    if seg is not None and "(error " not in seg:
+                    complete = str(i_ + 1) in got or "end" in got      # the run got past this assert (it may die later)
+                    if seg is not None and complete and "(error " not in seg:
                         mini = "\n".join(["(set-logic %s)" % lg_] + decls_ + [acmd, "(check-sat)"]) + "\n"
                         r2 = runner(binary, mini, t_limit)
                         ctx.violation("silent:ill-sorted-accepted:%s" % sym,
